@@ -127,19 +127,21 @@ theorem popOperator_spec (o : OpEntry) (ops : List OpEntry) (t : OTree) (rest : 
 /-! ### final pops -/
 
 theorem popAll_spec : ∀ (ops : List OpEntry) (t : OTree) (rest : List OTree), CInv ops t rest →
-    ∃ T, popAll ops (t :: rest) = some [T] ∧ WellShaped T ∧ T.yield = yieldBelow ops rest ++ t.yield := by
+    ∃ T, popAll ops (t :: rest) = some [T] ∧ WellShaped T ∧ T.yield = yieldBelow ops rest ++ t.yield ∧
+      rightOpen T = ops.reverse ++ rightOpen t := by
   intro ops
   induction ops with
   | nil =>
     intro t rest h
     have : rest = [] := h.2.2
     subst this
-    exact ⟨t, by simp [popAll], h.1, by simp [yieldBelow]⟩
+    exact ⟨t, by simp [popAll], h.1, by simp [yieldBelow], by simp⟩
   | cons o ops ih =>
     intro t rest h
-    obtain ⟨t', rest', hp, hc, _, hy⟩ := popOperator_spec o ops t rest h
-    obtain ⟨T, hT, hw, hyT⟩ := ih t' rest' hc
-    exact ⟨T, by simp only [popAll, hp]; exact hT, hw, by rw [hyT, hy]⟩
+    obtain ⟨t', rest', hp, hc, hro, hy⟩ := popOperator_spec o ops t rest h
+    obtain ⟨T, hT, hw, hyT, hrT⟩ := ih t' rest' hc
+    exact ⟨T, by simp only [popAll, hp]; exact hT, hw, by rw [hyT, hy],
+      by rw [hrT, hro]; simp [List.reverse_cons, List.append_assoc]⟩
 
 /-! ### the reduction loops -/
 
@@ -175,7 +177,8 @@ theorem reduceInfix_spec (o : OpEntry) : ∀ (ops : List OpEntry) (t : OTree) (r
       yieldBelow ops' rest' ++ t'.yield = yieldBelow ops rest ++ t.yield ∧
       ((reduceInfix o.prec ops (t :: rest) = some (.go ops' (t' :: rest')) ∧
           (∀ o' ∈ rightOpen t', GivesWay o' o) ∧ HoldsTop ops' (.inf o)) ∨
-       reduceInfix o.prec ops (t :: rest) = some (.conflict ops' (t' :: rest'))) := by
+       (reduceInfix o.prec ops (t :: rest) = some (.conflict ops' (t' :: rest')) ∧
+          ∃ ob tl, ops' = ob :: tl ∧ ob.prec = o.prec ∧ ob.assoc = 3)) := by
   intro ops
   induction ops with
   | nil =>
@@ -199,10 +202,11 @@ theorem reduceInfix_spec (o : OpEntry) : ∀ (ops : List OpEntry) (t : OTree) (r
         simp only [reduceInfix, hgw, if_true, hp]
         exact h3
       · right
+        refine ⟨?_, h3.2⟩
         simp only [reduceInfix, hgw, if_true, hp]
-        exact h3
+        exact h3.1
     · by_cases hcf : ob.prec = o.prec ∧ ob.assoc = 3
-      · exact ⟨ob :: ops, t, rest, h, Nat.le_refl _, rfl, Or.inr (by simp [reduceInfix, hgw, hcf])⟩
+      · exact ⟨ob :: ops, t, rest, h, Nat.le_refl _, rfl, Or.inr ⟨by simp [reduceInfix, hgw, hcf], ob, ops, rfl, hcf.1, hcf.2⟩⟩
       · exact ⟨ob :: ops, t, rest, h, Nat.le_refl _, rfl, Or.inl ⟨by simp [reduceInfix, hgw, hcf], hr, ⟨hgw, hcf⟩⟩⟩
 
 /-! ### the whole table -/
@@ -233,7 +237,9 @@ def Marked (run : PRun) (T : PTableExprs) (p0 : Nat) (st : OTState) : Prop :=
   st.marker ≤ st.ops.length ∧
   (st.operands = [] ∨ ∃ t rest, st.operands = t :: rest ∧
     CInv (st.ops.drop (st.ops.length - st.marker)) t rest ∧
-    Trace run T p0 (yieldBelow (st.ops.drop (st.ops.length - st.marker)) rest ++ t.yield) st.outerCp)
+    Trace run T p0 (yieldBelow (st.ops.drop (st.ops.length - st.marker)) rest ++ t.yield) st.outerCp ∧
+    -- what has been read since: the infix operator and the prefix operators that still wait for an operand
+    ∃ (o : OpEntry) (pres : List OpEntry), Trace run T st.outerCp ([Tok.inf o] ++ pres.map Tok.pre) st.pos)
 
 def PreInv (run : PRun) (T : PTableExprs) (p0 : Nat) (st : OTState) : Prop :=
   SInv st.ops st.operands ∧ Trace run T p0 (yieldBelow st.ops st.operands) st.pos ∧ Marked run T p0 st
@@ -248,16 +254,28 @@ def PhaseInv (run : PRun) (T : PTableExprs) (p0 : Nat) : Phase → OTState → P
   | .post, st => PostInv run T p0 st
   | .inf, st => PostInv run T p0 st ∧ st.marker = st.ops.length ∧ st.outerCp = st.pos
 
+/-- why the expression ends at `pe`: no infix operator can be read there; or one can, but after it
+    (and any prefix operators) no operand follows - the dangling operator is left unconsumed; or the
+    infix operator read there is non-associative and one of its own row is open at the right edge -/
+def Stops (run : PRun) (T : PTableExprs) (tree : OTree) (pe : Nat) : Prop :=
+  T.infixes = none ∨
+  (∃ ie, T.infixes = some ie ∧ run ie pe = some .fail) ∨
+  (∃ (o : OpEntry) (pres : List OpEntry) (q : Nat), Trace run T pe ([Tok.inf o] ++ pres.map Tok.pre) q ∧
+    run T.operands q = some .fail) ∨
+  (∃ ie v q o ob, T.infixes = some ie ∧ run ie pe = some (.ok v q) ∧ decodeOp v = some o ∧
+    ob ∈ rightOpen tree ∧ ob.prec = o.prec ∧ ob.assoc = 3)
+
 /-- what is claimed of a result -/
 def Shaped (run : PRun) (T : PTableExprs) (p0 : Nat) (v : Val) (pe : Nat) : Prop :=
-  ∃ tree : OTree, v = tree.toVal ∧ WellShaped tree ∧ Trace run T p0 tree.yield pe
+  ∃ tree : OTree, v = tree.toVal ∧ WellShaped tree ∧ Trace run T p0 tree.yield pe ∧ Stops run T tree pe
 
 theorem finishTable_spec (ops : List OpEntry) (t : OTree) (rest : List OTree) (marker : Nat)
     (h : CInv (ops.drop (ops.length - marker)) t rest) :
     ∃ T, finishTable ops (t :: rest) marker = some T ∧ WellShaped T ∧
-      T.yield = yieldBelow (ops.drop (ops.length - marker)) rest ++ t.yield := by
-  obtain ⟨T, h1, h2, h3⟩ := popAll_spec _ t rest h
-  exact ⟨T, by simp [finishTable, h1], h2, h3⟩
+      T.yield = yieldBelow (ops.drop (ops.length - marker)) rest ++ t.yield ∧
+      rightOpen T = (ops.drop (ops.length - marker)).reverse ++ rightOpen t := by
+  obtain ⟨T, h1, h2, h3, h4⟩ := popAll_spec _ t rest h
+  exact ⟨T, by simp [finishTable, h1], h2, h3, h4⟩
 
 theorem pegOT_shaped (run : PRun) (T : PTableExprs) (hT : Tagged run T) (p0 : Nat) :
     ∀ (fuel : Nat) (ph : Phase) (st : OTState) (v : Val) (pe : Nat),
@@ -308,9 +326,16 @@ theorem pegOT_shaped (run : PRun) (T : PTableExprs) (hT : Tagged run T) (p0 : Na
                   rfl
                 show _ ∨ ∃ t rest, st.operands = t :: rest ∧
                   CInv ((o :: st.ops).drop ((o :: st.ops).length - st.marker)) t rest ∧
-                  Trace run T p0 (yieldBelow ((o :: st.ops).drop ((o :: st.ops).length - st.marker)) rest ++ t.yield) st.outerCp
+                  Trace run T p0 (yieldBelow ((o :: st.ops).drop ((o :: st.ops).length - st.marker)) rest ++ t.yield) st.outerCp ∧
+                  ∃ (oi : OpEntry) (pres : List OpEntry), Trace run T st.outerCp ([Tok.inf oi] ++ pres.map Tok.pre) p'
                 rw [hdrop]
-                exact hmk
+                rcases hmk with hmk | ⟨t, rest, hop, hc, htr', oi, pres, hdang⟩
+                · exact Or.inl hmk
+                · refine Or.inr ⟨t, rest, hop, hc, htr', oi, pres ++ [o], ?_⟩
+                  have : [Tok.inf oi] ++ (pres ++ [o]).map Tok.pre = ([Tok.inf oi] ++ pres.map Tok.pre) ++ [Tok.pre o] := by
+                    simp [List.map_append, List.append_assoc]
+                  rw [this]
+                  exact Trace.pre hdang hp hr hd
     | operand =>
       simp only [pegOT] at h
       obtain ⟨hs, htr, hm, hmk⟩ := hinv
@@ -320,13 +345,16 @@ theorem pegOT_shaped (run : PRun) (T : PTableExprs) (hT : Tagged run T) (p0 : Na
         cases r with
         | fail =>
           simp only [hr] at h
-          rcases hmk with hmk | ⟨t, rest, hop, hc, htr'⟩
+          rcases hmk with hmk | ⟨t, rest, hop, hc, htr', oi, pres, hdang⟩
           · simp [hmk] at h
           · simp only [hop, List.isEmpty_cons] at h
-            obtain ⟨Tr, h1, h2, h3⟩ := finishTable_spec st.ops t rest st.marker hc
+            obtain ⟨Tr, h1, h2, h3, _⟩ := finishTable_spec st.ops t rest st.marker hc
             simp [h1] at h
             obtain ⟨hv, hpe⟩ := h
-            exact ⟨Tr, hv.symm, h2, by rw [h3, ← hpe]; exact htr'⟩
+            refine ⟨Tr, hv.symm, h2, by rw [h3, ← hpe]; exact htr', ?_⟩
+            -- the dangling operator: read, but no operand follows
+            right; right; left
+            exact ⟨oi, pres, st.pos, by rw [← hpe]; exact hdang, hr⟩
         | ok w p' =>
           simp only [hr] at h
           refine ih .post { st with operands := .leaf w :: st.operands, pos := p' } v pe ⟨.leaf w, st.operands, rfl, ⟨trivial, ?_, hs⟩, rfl, ?_⟩ h
@@ -374,23 +402,27 @@ theorem pegOT_shaped (run : PRun) (T : PTableExprs) (hT : Tagged run T) (p0 : Na
     | inf =>
       simp only [pegOT] at h
       obtain ⟨⟨t, rest, hop, hc, hro, htr⟩, hmark, hcp⟩ := hinv
-      have finish : ∀ w, (match finishTable st.ops st.operands st.marker with
+      have finish : ∀ w, (T.infixes = none ∨ ∃ ie, T.infixes = some ie ∧ run ie st.pos = some .fail) →
+          (match finishTable st.ops st.operands st.marker with
             | none => none
             | some x => some (Res.ok x.toVal st.pos)) = some (.ok w pe) → Shaped run T p0 w pe := by
-        intro w hw
+        intro w hwhy hw
         have hc' : CInv (st.ops.drop (st.ops.length - st.marker)) t rest := by
           rw [hmark]; simpa using hc
-        obtain ⟨Tr, h1, h2, h3⟩ := finishTable_spec st.ops t rest st.marker hc'
+        obtain ⟨Tr, h1, h2, h3, _⟩ := finishTable_spec st.ops t rest st.marker hc'
         rw [hop, h1] at hw
         simp at hw
         obtain ⟨hv, hpe⟩ := hw
-        refine ⟨Tr, hv.symm, h2, ?_⟩
-        rw [h3, ← hpe, hmark]
-        simpa using htr
+        refine ⟨Tr, hv.symm, h2, ?_, ?_⟩
+        · rw [h3, ← hpe, hmark]
+          simpa using htr
+        · rcases hwhy with h0 | ⟨ie, h0, h1'⟩
+          · exact Or.inl h0
+          · exact Or.inr (Or.inl ⟨ie, h0, by rw [← hpe]; exact h1'⟩)
       cases hp : T.infixes with
       | none =>
         simp only [hp] at h
-        exact finish v h
+        exact finish v (Or.inl hp) h
       | some iex =>
         simp only [hp] at h
         cases hr : run iex st.pos with
@@ -399,7 +431,7 @@ theorem pegOT_shaped (run : PRun) (T : PTableExprs) (hT : Tagged run T) (p0 : Na
           cases r with
           | fail =>
             simp only [hr] at h
-            exact finish v h
+            exact finish v (Or.inr ⟨iex, hp, hr⟩) h
           | ok w p' =>
             simp only [hr] at h
             cases hd : decodeOp w with
@@ -425,24 +457,34 @@ theorem pegOT_shaped (run : PRun) (T : PTableExprs) (hT : Tagged run T) (p0 : Na
                     have : (o :: ops').length - ops'.length = 1 := by simp
                     rw [this]
                     exact h1
-                  · show Trace run T p0 (yieldBelow ((o :: ops').drop ((o :: ops').length - ops'.length)) rest' ++ t'.yield) st.outerCp
+                  · show Trace run T p0 (yieldBelow ((o :: ops').drop ((o :: ops').length - ops'.length)) rest' ++ t'.yield) st.outerCp ∧
+                      ∃ (oi : OpEntry) (pres : List OpEntry), Trace run T st.outerCp ([Tok.inf oi] ++ pres.map Tok.pre) p'
                     have : (o :: ops').length - ops'.length = 1 := by simp
                     rw [this, hcp]
-                    show Trace run T p0 (yieldBelow ops' rest' ++ t'.yield) st.pos
-                    rw [h2]
-                    exact htr
-              · simp only [h3] at h
+                    refine ⟨?_, o, [], ?_⟩
+                    · show Trace run T p0 (yieldBelow ops' rest' ++ t'.yield) st.pos
+                      rw [h2]
+                      exact htr
+                    · have := Trace.inf (Trace.nil (run := run) (T := T) st.pos) hp hr hd
+                      simpa using this
+              · obtain ⟨h3, ob, tl, hops, hprec, hassoc⟩ := h3
+                simp only [h3] at h
                 have hz : ops'.length - st.marker = 0 := by rw [hmark]; omega
                 have hc' : CInv (ops'.drop (ops'.length - st.marker)) t' rest' := by
                   rw [hz]; simpa using h1
-                obtain ⟨Tr, g1, g2, g3⟩ := finishTable_spec ops' t' rest' st.marker hc'
+                obtain ⟨Tr, g1, g2, g3, g4⟩ := finishTable_spec ops' t' rest' st.marker hc'
                 simp [g1] at h
                 obtain ⟨hv, hpe⟩ := h
-                refine ⟨Tr, hv.symm, g2, ?_⟩
-                rw [g3, hz, ← hpe, hcp]
-                simp only [List.drop_zero]
-                rw [h2]
-                exact htr
+                refine ⟨Tr, hv.symm, g2, ?_, ?_⟩
+                · rw [g3, hz, ← hpe, hcp]
+                  simp only [List.drop_zero]
+                  rw [h2]
+                  exact htr
+                · -- a non-associative operator of the same row is open at the right edge
+                  right; right; right
+                  refine ⟨iex, w, p', o, ob, hp, by rw [← hpe, hcp]; exact hr, hd, ?_, hprec, hassoc⟩
+                  rw [g4, hz, hops]
+                  simp
 
 /-- **C02, declarative.**  Whatever an operator table returns is the value of a well-shaped tree
     whose in-order reading is a sequence of operands and operators that the sub-parsers accept
